@@ -105,8 +105,44 @@ def main(tier, rep):
                     evs.append({"e": "cmp", "op": "construct", "attempts": 1, "stack": stack, "ref": ref,
                                 "got": construct(stack, prefix, uni, enc),
                                 "cfg": {"prefix": repr(prefix), "allow_unicode_keys": uni, "encoding": enc}})
+    # every combination of the two timeouts, given or left out: the wrapper connects and talks under the same ones
+    def first_exchange(kind, ct, t, extra):
+        kw = dict(extra, leave_timeouts_unset=True)
+        if ct != "unset":
+            kw["connect_timeout"] = ct
+        if t != "unset":
+            kw["timeout"] = t
+        try:
+            net, srv, cl = CL.make_stack(kind, default_noreply=False, key_prefix=b"", **kw)
+        except Exception as e:   # noqa
+            return {"cmds": [], "res": {"t": "exc", "x": type(e).__name__}, "conn": {"io": [], "est": []}}
+        net.begin_call(1)
+        mark = len(net.log)
+        try:
+            r = cl.set("k", b"v", noreply=False)
+            res = {"t": "bool", "b": bool(r)}
+        except Exception as e:   # noqa
+            res = {"t": "exc", "x": type(e).__name__}
+        return {"cmds": [CL.canon_cmd(c) for c in net.sent_cmds], "res": res, "conn": CL.conn_info(net.log[mark:])}
+    for ct in ("unset", None, 2, 6):
+        for t in ("unset", None, 4, 6):
+            for extra in ({}, {"no_delay": True}):
+                ref = first_exchange("client", ct, t, extra)
+                for stack in ("pooled", "hash", "hashpooled", "retrying"):
+                    evs.append({"e": "cmp", "op": "timeouts", "attempts": 1, "stack": stack, "ref": ref,
+                                "got": first_exchange(stack, ct, t, extra),
+                                "cfg": {"connect_timeout": str(ct), "timeout": str(t), "extra": sorted(extra)}})
     # the serializer given in both the current and the legacy way: the same one wins on every stack
     from pymemcache import serde as S_
+
+    class EmptyRegistry(dict):
+        """a serde object that is also an (empty, hence falsy) mapping of per-type handlers"""
+
+        def serialize(self, key, value):
+            return repr(value).encode(), 55
+
+        def deserialize(self, key, value, flags):
+            return ("from-the-registry", value)
 
     def legacy_ser(key, value):
         return (value if isinstance(value, bytes) else repr(value).encode()), 77
@@ -114,7 +150,8 @@ def main(tier, rep):
     def legacy_deser(key, value, flags):
         return value
     for extra in (dict(serde=S_.pickle_serde, serializer=legacy_ser, deserializer=legacy_deser),
-                  dict(serializer=legacy_ser, deserializer=legacy_deser), dict(serde=S_.pickle_serde, deserializer=legacy_deser)):
+                  dict(serializer=legacy_ser, deserializer=legacy_deser), dict(serde=S_.pickle_serde, deserializer=legacy_deser),
+                  dict(serde=EmptyRegistry()), dict(serde=EmptyRegistry(), serializer=legacy_ser, deserializer=legacy_deser)):
         def both(kind, extra=extra):
             try:
                 net, srv, cl = make(kind, False, b"", dict(extra))
